@@ -22,7 +22,7 @@ ASSUMPTIONS = [
     "pair cell), tied to the code by a ledger in the harness through which every malloc/calloc/free of src/sx.c passes",
 ]
 TRUSTED = ["correspondence harness harness/h_sx.c + tools/lib/vf.py (status, the complete tree, position on success, allocations made / released by the reader / released by sx_destroy)"]
-DESIGN_REF = "DESIGN.md section 8, C20"
+DESIGN_REF = "DESIGN.md section 0.2 (as built) and section 8, C20"
 TECHNIQUE = "Lean 4 proof by induction over renderings (parse of any rendering of a tree, with arbitrary inter-token white space, returns the tree and the position just past it; bounds; termination) and over the heap view of the reader (every allocation is part of the returned tree or released: no leak) + differential correspondence on enumerated trees/strings in exact-size buffers"
 LEVEL_TEXT = ("Machine-checked proof over the Lean model of the reader: for every tree of symbols, unsigned integers (decimal or #x hex in either case) and nested proper lists "
               "(empty ones included) and every admissible choice of inter-token white space the reader returns exactly that tree and the position just past the "
